@@ -261,6 +261,57 @@ def run_proc(cmd, timeout, env=None, cwd=None, stdin=None):
     return dict(rc=rc, out=out, err=err, timed_out=to, sig=(-rc if rc is not None and rc < 0 else None))
 
 
+def run_proc_watch(cmd, stall, total, env=None, cwd=None):
+    """like run_proc for a harness that prints '#B <n>' before each case: the process is killed (timed_out) when no new case has begun for
+    `stall` seconds, so a hanging case is found after seconds, not after the whole shard's budget"""
+    import threading
+    e = dict(os.environ)
+    e.update(ASAN_ENV)
+    if env:
+        e.update(env)
+    p = None
+    for attempt in range(6):
+        try:
+            p = subprocess.Popen(cmd, stdout=subprocess.PIPE, stderr=subprocess.PIPE, stdin=subprocess.DEVNULL, env=e, cwd=cwd, start_new_session=True)
+            break
+        except OSError as ex:
+            last = ex
+            time.sleep(3)
+    if p is None:
+        raise HarnessFailure('cannot execute %s: %s' % (cmd[0], last))
+    out, err = [], []
+    prog = [time.time()]
+
+    def rd_out():
+        for l in p.stdout:
+            out.append(l)
+            if l.startswith(b'#B '):
+                prog[0] = time.time()
+
+    def rd_err():
+        for l in p.stderr:
+            err.append(l)
+            if len(err) > 20000:
+                del err[:10000]
+    t1 = threading.Thread(target=rd_out, daemon=True); t2 = threading.Thread(target=rd_err, daemon=True)
+    t1.start(); t2.start()
+    t0 = time.time(); to = False
+    while p.poll() is None:
+        time.sleep(0.05 if time.time() - t0 < 2 else 0.25)
+        now = time.time()
+        if now - prog[0] > stall or now - t0 > total:
+            try:
+                os.killpg(p.pid, signal.SIGKILL)
+            except OSError:
+                pass
+            to = True
+            break
+    p.wait()
+    t1.join(5); t2.join(5)
+    rc = p.returncode
+    return dict(rc=rc, out=b''.join(out), err=b''.join(err), timed_out=to, sig=(-rc if rc is not None and rc < 0 and not to else None))
+
+
 def classify_death(r):
     """None if the process ended normally (rc 0); else (kind, top, excerpt)."""
     err = r['err'].decode('utf-8', 'replace')
@@ -293,7 +344,7 @@ def run_sharded(exe, base_args, ncases, on_line, on_death, seed, timeout_per_cas
         b = min(first + ncases, a + per)
         while a < b:
             cmd = [exe] + list(base_args) + ['--seed', str(seed), '--from', str(a), '--to', str(b)]
-            r = run_proc(cmd, timeout=max(min_shard_timeout, timeout_per_case * (b - a)), env=env)
+            r = run_proc_watch(cmd, stall=max(30.0, timeout_per_case * 3), total=max(min_shard_timeout, timeout_per_case * (b - a)), env=env)
             cur = None
             for l in r['out'].decode('utf-8', 'replace').splitlines():
                 if l.startswith('#B '):
